@@ -30,19 +30,22 @@ ASSUMPTIONS = [
 BUDGET = {"quick": {"examples": 8000, "shrink": 300}, "thorough": {"examples": 480000, "shrink": 2000}}
 ENUM_LEN = {"quick": 5, "thorough": 6}
 EXHAUSTIVE = {"quick": "all 9^5 = 59049 histories of length 5 over {add ttl 1, add ttl 2, add infinite, stop, remove-all-for-address, T-RES/4, T+RES/4, T-4RES, +0.5 s} in modes store and discover",
-              "thorough": "all 9^6 = 531441 histories of length 6 over the same alphabet in modes store and discover"}
+              "thorough": "all 9^6 = 531441 histories of length 6 over the same alphabet in modes store, discover and instance"}
 INF = 0xFFFFFF
 MODES = ["store", "discover", "instance"]
 ALPHA = ["a1", "a2", "ainf", "stop", "rmaddr", "T-q", "T+q", "T-4", "+0.5"]
 SVC = [(0x1000, 1, 1, 0), (0x1000, 2, 1, 0), (0x2000, 1, 2, 5)]
 
 
+ENUM_MODES = {"quick": 2, "thorough": 3}
+
+
 def enum_size(tier):
-    return 2 * len(ALPHA) ** ENUM_LEN[tier]
+    return ENUM_MODES[tier] * len(ALPHA) ** ENUM_LEN[tier]
 
 
 def enum_case(tier, idx):
-    idx, mode = divmod(idx, 2)
+    idx, mode = divmod(idx, ENUM_MODES[tier])
     steps = []
     when = ["d", 0.25]
     for _ in range(ENUM_LEN[tier]):
